@@ -324,7 +324,7 @@ def clause_onpolicy(cases, ctx: Ctx):
 
     out = []
     for ci, c in enumerate(cases):
-        env = TimeLimit(TabEnv(np.asarray(c["T"]), c["term"], c["init"], act_kind=c["act_kind"], obs_kind="onehot"), 3)
+        env = TimeLimit(TabEnv(np.asarray(c["T"]), c["term"], c["init"], M=c.get("M"), act_kind=c["act_kind"], obs_kind="onehot"), 3)
         pol = MLPActorCriticPolicy(env, feature_size=4, feature_width=8, value_width=8, action_width=8, key=jr.key(c["key"]), log_std_init=c.get("log_std", 0.0))
         algo = PROBES["PPO"](num_envs=c["num_envs"], num_steps=c["num_steps"], num_batches=1, num_epochs=1)
         cb = CallbackList(callbacks=[])
@@ -339,6 +339,15 @@ def clause_onpolicy(cases, ctx: Ctx):
             out.append((ci, "C08/ppo/on-policy/approx-kl-not-zero", f"{c['act_kind']} MDP key {c['key']}: approx_kl={kl} on data collected by the evaluated policy"))
         if not refs.close(float(stats.policy_loss), -adv.mean(), 1e-4):
             out.append((ci, "C08/ppo/on-policy/ratios-not-one", f"{c['act_kind']} MDP key {c['key']}: policy_loss {float(stats.policy_loss)} != -mean(advantage) {-adv.mean()} (all ratios should be 1)"))
+        # A2C / REINFORCE on the same fresh data: the re-evaluated log-probabilities are the stored ones (mask included)
+        slp = np.asarray(buf.log_probs, dtype=np.float64)
+        want = -(slp * adv).mean()
+        masked = c.get("M") is not None
+        for nm, (_, st2) in (("a2c", A2C.a2c_loss(pol, buf, False, 0.0, 0.0)), ("reinforce", REINFORCE.reinforce_loss(pol, buf, False, 0.0))):
+            if not refs.close(float(st2.policy_loss), want, 1e-4):
+                out.append((ci, f"C08/{nm}/on-policy/log-probs-differ-from-collection", f"{c['act_kind']} MDP key {c['key']}{' with action masks' if masked else ''}: policy_loss {float(st2.policy_loss)} != -mean(stored log-prob * advantage) {want}"))
+        if masked:
+            ctx.guard("onpolicy-masked-rows", int((~np.asarray(buf.action_masks)).any(-1).sum()))
     return out
 
 
@@ -538,6 +547,9 @@ def explore(ctx: Ctx):
     for kind in ("discrete", "box", "boxvec", "multidiscrete", "multibinary"):
         for k in range(4 if thorough else 2):
             onp.append(dict(T=Tm, term=[False, False], init=[True, True], act_kind=kind, key=ctx.seed * 1000 + k, num_envs=2, num_steps=8, log_std=1.0))
+    for M in ([[True, True], [True, False]], [[False, True], [True, True]], [[True, False], [False, True]]):
+        for k in range(2):
+            onp.append(dict(T=Tm, term=[False, False], init=[True, True], act_kind="discrete", key=ctx.seed * 1000 + 50 + k, num_envs=2, num_steps=8, M=M))
     ctx.run("onpolicy", onp)
     opt = []
     for algo in ("PPO", "A2C", "REINFORCE"):
@@ -553,4 +565,4 @@ def explore(ctx: Ctx):
     ctx.notes["wiring_cases"] = len(wiring)
     ctx.notes["loss_cases"] = len(cases)
     ctx.require("gradient-cases", "support-clipped-out-rows", "support-active-rows", "value-clipped-larger", "value-clipped-smaller",
-                "opt-first-clipped", "opt-second-clipped", "onpolicy-clipped-actions", "wiring-gradient-nonzero")
+                "opt-first-clipped", "opt-second-clipped", "onpolicy-clipped-actions", "wiring-gradient-nonzero", "onpolicy-masked-rows")
